@@ -1,13 +1,58 @@
 import Thanos.Common.Parse
+import Thanos.Model.Split
 /-
   Line-protocol driver of the `frontend` family (C41 C42 C43 C44).
   One request per line, one answer per line; every line is self-contained.
+
+  C41 ops (integers are decimal milliseconds):
+    split.range  <start> <end> <step> <intervalMs>   -> ok s:e,s:e,… | ok - | panic
+    split.labels|split.series <start> <end> <intervalMs>   -> ok s:e,s:e,… | ok -
+    split.nib    <t> <step> <intervalMs>             -> <int> | panic
+    split.align  <start> <end> <step>                -> <start'> <end'> | panic
 -/
 open Thanos Thanos.Parse
 
 namespace Thanos.Driver.Frontend
 
+def showPairs (l : List (Int × Int)) : String :=
+  joinWith "," (l.map fun (a, b) => s!"{a}:{b}")
+
+def showSplit : Split.Res (List (Int × Int)) → String
+  | .ok l => "ok " ++ showPairs l
+  | .panic => "panic"
+  | .fuel => "fuel"
+
+def handle3 (op a c d : String) : String :=
+  if op = "split.nib" then
+    match parseInt? a, parseInt? c, parseInt? d with
+    | some t, some step, some iv =>
+      match Split.nib t step iv with
+      | some e => toString e
+      | none => "panic"
+    | _, _, _ => "bad-op"
+  else if op = "split.align" then
+    match parseInt? a, parseInt? c, parseInt? d with
+    | some start, some stop, some step =>
+      match Split.stepAlign start stop step with
+      | some (s, e) => s!"{s} {e}"
+      | none => "panic"
+    | _, _, _ => "bad-op"
+  else "bad-op"
+
 def handle : List String → String
+  | ["split.range", a, b, c, d] =>
+    match parseInt? a, parseInt? b, parseInt? c, parseInt? d with
+    | some start, some stop, some step, some iv =>
+      -- protocol domain: negative steps/intervals are not compared (the Go loop need not terminate)
+      if step < 0 ∨ iv < 0 then "bad-op" else showSplit (Split.split start stop step iv)
+    | _, _, _, _ => "bad-op"
+  | [op, a, b, d] =>
+    if op = "split.labels" ∨ op = "split.series" then
+      match parseInt? a, parseInt? b, parseInt? d with
+      | some start, some stop, some dur =>
+        if dur ≤ 0 then "bad-op" else showSplit (Split.splitLabels true start stop dur)
+      | _, _, _ => "bad-op"
+    else handle3 op a b d
   | _ => "bad-op"
 
 end Thanos.Driver.Frontend
